@@ -1,6 +1,7 @@
 package main
 
 import (
+	"strconv"
 	"fmt"
 	"go/ast"
 	"go/constant"
@@ -184,6 +185,103 @@ func checkC04(c *Ctx) {
 	// ---- C04.13 "reaches the covert destination exactly once and in order, and the covert's reply reaches the client
 	// likewise": the two directions of a tunnel relay through memory of their own (shared with C05.11)
 	checkPrivateRelayBuffer(c, "C04.13")
+	// ---- C04.15 "marks the registration as used" ... for every connection of a registered client: what a transport decides
+	// about one connection does not depend on earlier connections - WrapConnection and the helpers of its package write
+	// no map, field or package variable that outlives the call (a replay filter keyed by the per-registration tag
+	// refuses every connection after the first)
+	r.Rule("C04.15", "the wrapping transports keep no state between connections", 3)
+	for _, impl := range wrappingImpls(c) {
+		seen := map[*ssa.Function]bool{}
+		var order []*ssa.Function
+		var visit func(g *ssa.Function, d int)
+		visit = func(g *ssa.Function, d int) {
+			if g == nil || seen[g] || g.Blocks == nil || d > 3 || g.Package() != impl.Package() {
+				return
+			}
+			seen[g] = true
+			order = append(order, g)
+			for _, a := range g.AnonFuncs {
+				visit(a, d)
+			}
+			eachInstr(g, func(in ssa.Instruction) {
+				if ci, ok := in.(ssa.CallInstruction); ok {
+					visit(ci.Common().StaticCallee(), d+1)
+				}
+			})
+		}
+		visit(impl, 0)
+		var bad []string
+		pos := impl.Pos()
+		for _, g := range order {
+			eachInstr(g, func(in ssa.Instruction) {
+				var addr ssa.Value
+				switch x := in.(type) {
+				case *ssa.MapUpdate:
+					addr = x.Map
+				case *ssa.Store:
+					addr = x.Addr
+				default:
+					return
+				}
+				root := addr
+				for i := 0; i < 8; i++ {
+					switch y := root.(type) {
+					case *ssa.FieldAddr:
+						root = y.X
+						continue
+					case *ssa.IndexAddr:
+						root = y.X
+						continue
+					case *ssa.UnOp:
+						root = y.X
+						continue
+					}
+					break
+				}
+				switch y := root.(type) {
+				case *ssa.Global:
+					bad = append(bad, fnName(g)+" writes "+firstN(pathOf(addr), 40))
+					pos = in.Pos()
+				case *ssa.Parameter:
+					// the receiver (the transport itself, or an object hanging off it) - not the buffer / connection arguments
+					if g.Signature.Recv() != nil && len(g.Params) > 0 && y == g.Params[0] {
+						if _, isMap := in.(*ssa.MapUpdate); isMap || strings.Contains(typeShort(y.Type()), "Transport") || strings.Contains(strings.ToLower(typeShort(y.Type())), "filter") || strings.Contains(strings.ToLower(typeShort(y.Type())), "cache") {
+							bad = append(bad, fnName(g)+" writes "+firstN(pathOf(addr), 40))
+							pos = in.Pos()
+						}
+					}
+				}
+			})
+		}
+		sort.Strings(bad)
+		r.Check(len(bad) == 0, "C04.15", fnName(impl)+": no state survives the call", pos, fnName(impl), fmt.Sprintf("%d function(s) of the package scanned: no store to a package variable, to the transport or to a map hanging off it", len(order)),
+			"the transport remembers something across connections ("+firstN(strings.Join(bad, "; "), 140)+"): whether a registered client's flight is recognised then depends on the connections before it")
+	}
+
+	// ---- C04.14 obfs4 recognises every padding the client can draw: the search for the mark starts right behind the
+	// shortest possible prefix of a client flight - the representative plus the minimum padding - not later
+	r.Rule("C04.14", "the obfs4 mark search starts at representative + minimum padding", 1)
+	if f := c.fn("C04.14", "pkg/transports/wrapping/obfs4", "Transport", "WrapConnection"); f != nil {
+		n := 0
+		minPad := constIntOf(c.P, repoMod+"/pkg/transports/wrapping/obfs4", "ClientMinPadLength")
+		for _, l := range findDeep(f, func(name string, cc *ssa.CallCommon) bool { return strings.HasPrefix(calleeShort(cc), "findMarkMac") }, 2) {
+			cc := l.common()
+			if cc == nil || len(cc.Args) < 3 {
+				continue
+			}
+			n++
+			cv, isC := constOf(cc.Args[2])
+			want := ""
+			if mp, err := strconv.Atoi(minPad); err == nil {
+				want = strconv.Itoa(mp + 32) // ntor.RepresentativeLength
+			}
+			r.Check(isC && want != "" && cv.ExactString() == want, "C04.14", "obfs4 WrapConnection: findMarkMac starts at "+want, l.call.Pos(), fnName(l.in), "constant start offset = RepresentativeLength + ClientMinPadLength",
+				"the mark search starts later than the shortest client flight allows: valid handshakes with the smallest paddings are never recognised, under any segmentation - the station keeps answering try-again until the deadline and the client's bytes never reach the covert")
+		}
+		if n == 0 {
+			r.Unk("C04.14", "obfs4 WrapConnection: findMarkMac call", f.Pos(), fnName(f), "not found")
+		}
+	}
 	r.Rule("C04.1", "receive buffer is append-only and offered whole to every remaining transport", 2)
 	r.Rule("C04.2", "a transport that answers try-again / not-transport leaves the buffer untouched", 3)
 	r.Rule("C04.3", "prefix table, length thresholds, tag offsets and consumed length agree", 14)
